@@ -6,6 +6,7 @@
 //! interp.tracebits <tree>
 //! interp.step_vs_run <script>    stepping vs run(), stacks visible through state() after an error
 //! interp.step_vs_runbits <tree>
+//! interp.txrun <unlock> <lock> <idx>   Interpreter::from_transaction on a one-input transaction, stepping vs run
 //!
 //! Bit tree text: tokens separated by ','; `_` is the empty script.
 //!   o<dec>                 ScriptBit::OpCode
@@ -14,7 +15,7 @@
 //!   c<hex>                 ScriptBit::Coinbase
 //!   i<dec>.<np>.<nf|x>     ScriptBit::If{code, pass = next np bits, fail = the nf bits after them (x = None)}
 use crate::util::*;
-use bsv::{Interpreter, OpCodes, Script, ScriptBit, State, Status};
+use bsv::{Interpreter, OpCodes, Script, ScriptBit, State, Status, Transaction, TxIn};
 
 /// OpCodes value of a byte, obtained through the parser (the harness has no num-traits dependency).
 fn opcode_of(c: u8) -> Option<OpCodes> {
@@ -175,8 +176,12 @@ fn do_trace(script: &Script) -> String {
 }
 
 fn do_step_vs_run(script: &Script) -> String {
+    step_vs_run_with(&|| Interpreter::from_script(script))
+}
+
+fn step_vs_run_with(mk: &dyn Fn() -> Interpreter) -> String {
     // stepping
-    let mut it = Interpreter::from_script(script);
+    let mut it = mk();
     let mut n = 0usize;
     let mut last = (String::new(), String::new());
     let so;
@@ -218,7 +223,7 @@ fn do_step_vs_run(script: &Script) -> String {
         }
     };
     // run on a fresh interpreter
-    let mut it2 = Interpreter::from_script(script);
+    let mut it2 = mk();
     let ro = match it2.run() {
         Ok(()) => "O",
         Err(_) => "E",
@@ -229,7 +234,32 @@ fn do_step_vs_run(script: &Script) -> String {
     format!("OK:{};{};{};{};{};{};{};{}", so, n, stepped, ro, ran, again, same, keeps)
 }
 
+/// interp.txrun <unlocking script bytes> <locking script bytes> <input index>
+/// one-input transaction (value 1000, locking script attached), Interpreter::from_transaction(&tx, idx)
+fn do_txrun(args: &[String]) -> String {
+    let (u, l, idx) = match (arg_bytes(args, 0), arg_bytes(args, 1), arg_u64(args, 2)) {
+        (Some(u), Some(l), Some(i)) => (u, l, i as usize),
+        _ => return "BADARG".into(),
+    };
+    let (us, ls) = match (Script::from_bytes(&u), Script::from_bytes(&l)) {
+        (Ok(a), Ok(b)) => (a, b),
+        _ => return "ERR".into(),
+    };
+    let mut tx = Transaction::new(1, 0);
+    let mut txin = TxIn::new(&[0u8; 32], 0, &us, None);
+    txin.set_locking_script(&ls);
+    txin.set_satoshis(1000);
+    tx.add_input(&txin);
+    if Interpreter::from_transaction(&tx, idx).is_err() {
+        return "ERR".into();
+    }
+    step_vs_run_with(&|| Interpreter::from_transaction(&tx, idx).unwrap())
+}
+
 pub fn run(op: &str, args: &[String]) -> Option<String> {
+    if op == "interp.txrun" {
+        return Some(do_txrun(args));
+    }
     let (src, f): (Src, fn(&Script) -> String) = match op {
         "interp.run" => (Src::Bytes, do_run),
         "interp.runbits" => (Src::Tree, do_run),
